@@ -62,9 +62,10 @@ def fields_of(c) -> list:
 
 
 class Model:
-    def __init__(self, classes, start, expansion=False):
+    def __init__(self, classes, start, expansion=False, closed=False):
         self.start = start
         self.expansion = bool(expansion)
+        self.closed = bool(closed)  # the reachable sub-grammar: no symbol beyond the given classes (no climbing to their parents)
         self.supplied = list(dict.fromkeys(list(classes) + [start]))
         # symbols that can be registered: start, supplied subclasses of registered ones, field types, parents
         self._fields = {}
@@ -103,7 +104,7 @@ class Model:
                 continue
             seen.append(c)
             for b in c.__bases__:
-                if b not in (object, ABC, typing.Generic, typing.Protocol) and b not in BASE:
+                if b not in (object, ABC, typing.Generic, typing.Protocol) and b not in BASE and (not self.closed or b in self.supplied):
                     todo.append(b)
             for s in self.supplied:
                 if isinstance(s, type) and issubclass(s, c) and s is not c:
